@@ -311,6 +311,8 @@ type OutcomesSrc struct {
 	Src
 	Ctor    Ctor
 	Scripts [][]Ev
+	// Async: each attempt plays its script from a goroutine of its own.
+	Async bool
 	// Order records, per subscription start, whether the previous attempt's
 	// teardown had already run (C15).
 	mu2          sync.Mutex
@@ -350,13 +352,20 @@ func (o *OutcomesSrc) Observable() ro.Observable[int] {
 				script = o.Scripts[len(o.Scripts)-1]
 			}
 		}
-		for i, e := range script {
-			if e.K != 'N' {
-				o.mu2.Lock()
-				o.ended[n] = true
-				o.mu2.Unlock()
+		play := func() {
+			for i, e := range script {
+				if e.K != 'N' {
+					o.mu2.Lock()
+					o.ended[n] = true
+					o.mu2.Unlock()
+				}
+				emit(ctx, d, i, e)
 			}
-			emit(ctx, d, i, e)
+		}
+		if o.Async {
+			go play()
+		} else {
+			play()
 		}
 		return o.teardown(n)
 	})
